@@ -21,7 +21,8 @@ def specs(tier):
     from . import c02
 
     # the fused SKIP rule must be silent AND atomic, and the skip rewrite may only fire where no trivia can match
-    return [ops.SequenceSpec(), ops.RepeatSpec(), ops.RepeatOnceSpec(), *ops.bounded_repeat_specs(), *g.rules(), *g.trivia(), *tpl, c02.SkipRuleArms(), c02.SkipArms()]
+    return [ops.SequenceSpec(), ops.RepeatSpec(), ops.RepeatOnceSpec(), *ops.bounded_repeat_specs(), *g.rules(), *g.trivia(), *tpl, c02.SkipRuleArms(), c02.SkipArms(),
+            t.StubsRepresentative(), *t.delegating_generate_specs()]
 
 from .groups import concretise_ops
 concretise = concretise_ops(PROPERTY)
